@@ -31,6 +31,33 @@ func durationConst(v ssa.Value) (int64, bool) {
 }
 
 func runC26(c *Ctx) {
+	c.Rule("C26.NOW", "FLOW: the instant against which NonceCache expiries are compared when entries are evicted is the clock reading itself — it passes through no Time.Add / shift, so no nonce is forgotten before its retention ends (a replay of a still-fresh request would otherwise be accepted)")
+	{
+		n := 0
+		for _, fn := range c.P.FuncsIn("internal/cluster/security") {
+			if recvTypeName(fn) != "NonceCache" {
+				continue
+			}
+			for _, call := range callsIn(fn, false) {
+				callee := call.Common().StaticCallee()
+				if callee == nil || !strings.Contains(strings.ToLower(callee.Name()), "evict") {
+					continue
+				}
+				for _, a := range call.Common().Args[1:] {
+					if a.Type().String() != "time.Time" {
+						continue
+					}
+					n++
+					shifted := derives(a, func(v ssa.Value) bool {
+						cl, ok := v.(*ssa.Call)
+						return ok && (callName(cl) == "(time.Time).Add" || callName(cl) == "(time.Time).AddDate")
+					}, false, 6)
+					c.Check(!shifted, "C26.NOW", fmt.Sprintf("%s|eviction-instant#%d", fn.Name(), n), call.Pos(), "eviction compares expiries with the unshifted clock reading", fn.Name()+" evicts against a shifted instant (now.Add(…)): a nonce is dropped before its retention (2×tolerance) has run out, and a byte-for-byte replay that is still timestamp-fresh is accepted")
+				}
+			}
+		}
+		c.Check(n >= 1, "C26.NOW", "NonceCache|eviction-calls", 0, fmt.Sprintf("%d eviction call(s) inspected", n), "no eviction call with a time argument found (rule needs review)")
+	}
 	p := c.P
 	c.Rule("C26.TTL", "CONST: at every NewNonceCache construction the effective retention (argument x the factor NewNonceCache applies) is at least twice the largest tolerance any nonce-protected validator is called with: the validators accept |now - ts| <= T, a window 2T wide")
 	c.Rule("C26.WINDOW", "DOM: every Validate*HMAC function that takes a tolerance rejects on the ABSOLUTE drift (abs idiom, math.Abs, or a checked helper), so timestamps are refused on both sides of the window")
